@@ -137,11 +137,10 @@ Definition transformed_ok (m : affine) (incl skip : list str) (gs gs' : glyphset
     end) gs.
 
 (* TransformationsFilter with every glyph included (no slant): own contours mapped by m (no reversal), every
-   component (b, T) rewritten to m.T.m^-1 because its base is transformed too, anchors mapped, advance scaled *)
-Definition is_blank (g : glyph) : bool :=
-  match gcontours g, gcomps g, ganchors g with [], [], [] => true | _, _, _ => false end.
+   component (b, T) rewritten to m.T.m^-1 because its base is transformed too, anchors mapped, advance scaled
+   (a glyph without contours, components and anchors -- space -- included: its advance is scaled like anyone's; until repair
+   F44 the filter left it alone and the model had to say so) *)
 Definition transform_glyph (m : affine) (g : glyph) : glyph :=
-  if is_blank g then g else      (* a glyph without contours, components and anchors is left alone (advance included) *)
   mkG (map (aff_contour m) (gcontours g))
       (map (fun bt => (fst bt, compose m (compose (snd bt) (inverse m)))) (gcomps g))
       (xx m * gwidth g)
